@@ -84,6 +84,8 @@ var Mutants = []Mutant{
 		Expect:  "addEventParamsToScope#set-validated", Describe: "handler parameters are not validated"},
 	{ID: "accepts-any-fast-path-nil", Props: []string{"C03"}, Rule: "R-NILRET", File: "pkg/parser/type.go", Find: "func (t *Type) accepts(t2 *Type) bool {\n\tleft, right := t, t2\n", Replace: "func (t *Type) accepts(t2 *Type) bool {\n\tif t == ANY_TYPE {\n\t\treturn t2.Name != NONE\n\t}\n\tleft, right := t, t2\n", Expect: "parseReturnStatement#use-of-field", Describe: "accepts dereferences the nil type of a return statement whose value failed to parse"},
 	{ID: "rune-cache-extended", Props: []string{"C11"}, Rule: "R-RUNES/pkg/evaluator", File: "pkg/evaluator/evaluator.go", Find: "\t\treturn &stringVal{V: left.V + right.V}, nil", Replace: "\t\tresult := &stringVal{V: left.V + right.V}\n\t\tif left.runeSlice != nil {\n\t\t\tresult.runeSlice = append(left.runeSlice, right.runes()...)\n\t\t}\n\t\treturn result, nil", Expect: "#rune-cache", Describe: "concatenation extends the left operand's cached rune view: two results share a backing array"},
+	{ID: "scope-underscore-prefix", Props: []string{"C05"}, Rule: "R-DECLCHECK", File: "pkg/parser/scope.go", Find: "\tif name != \"_\" {\n\t\ts.vars[name] = v\n\t}", Replace: "\tif len(name) > 0 && name[0] != '_' {\n\t\ts.vars[name] = v\n\t}", Expect: "(*scope).set#only-underscore-is-anonymous", Describe: "every identifier starting with an underscore is invisible to the static scope"},
+	{ID: "numlit-error-at-next-token", Props: []string{"C03"}, Rule: "R-ERRLOC", File: "pkg/parser/expression.go", Find: "p.appendErrorForToken(err.Error(), tok)", Replace: "p.appendError(err.Error())", Expect: "parseLiteral#appendError", Describe: "`x := 1.2.3 + 4` is reported at the + instead of at the number"},
 	// C05 / C06
 	{ID: "break-no-eol", Props: []string{"C05", "C06"}, Rule: "R-EOLSTATE", File: "pkg/parser/parser.go", Find: "\tp.advance() // advance past BREAK token\n\tp.assertEOL()\n", Replace: "\tp.advance() // advance past BREAK token\n", Expect: "parseBreakStatement#skip", Describe: "text after break is skipped"},
 	{ID: "if-end-no-eol", Props: []string{"C05", "C06"}, Rule: "R-EOLSTATE", File: "pkg/parser/parser.go", Find: "\tp.assertEnd()\n\tp.advance()\n\tp.assertEOL()\n\tp.recordComment(ifStmt)", Replace: "\tp.assertEnd()\n\tp.advance()\n\tp.recordComment(ifStmt)", Expect: "parseIfStatement#skip", Describe: "text after the end of an if is skipped"},
@@ -105,6 +107,10 @@ var Mutants = []Mutant{
 	{ID: "for-blank-body-fast-path", Props: []string{"C14"}, Rule: "R-YIELD", File: "pkg/evaluator/evaluator.go", Find: "\tfor r.next(e.scope, loopVarName) {\n\t\tval, err := e.evalLoopBlock(f.Block)", Replace: "\tif len(f.Block.Statements) == 0 {\n\t\tfor r.next(e.scope, loopVarName) {\n\t\t}\n\t\treturn &noneVal{}, nil\n\t}\n\tfor r.next(e.scope, loopVarName) {\n\t\tval, err := e.evalLoopBlock(f.Block)", Expect: "evalFor#loop", Describe: "a for loop with an empty body steps its range without stop test or yield"},
 	{ID: "resolve-remembers-outer", Props: []string{"C16", "C17"}, Rule: "R-SLOTMAX", File: "pkg/bytecode/symbol.go", Find: "\treturn s.outer.Resolve(name)\n}", Replace: "\tobj, ok = s.outer.Resolve(name)\n\tif ok {\n\t\ts.store[name] = obj\n\t}\n\treturn obj, ok\n}", Expect: "Resolve#symbol-store-write", Describe: "Resolve caches outer symbols in the inner table: a later Define in the block returns the outer slot"},
 	{ID: "vm-stack-smaller-than-bound", Props: []string{"C17"}, Rule: "R-VMSTACK", File: "pkg/bytecode/vm.go", Find: "stack:        make([]value, StackSize),", Replace: "stack:        make([]value, StackSize/2),", Expect: "push#bounded-store", Describe: "the stack is allocated smaller than the bound push tests"},
+	{ID: "frontmatter-remembers-plaintext", Props: []string{"C20"}, Rule: "R-CRYPTO", File: "learn/pkg/learn/questionfm.go", Find: "\t\ttext, err = Decrypt(privateKey, f.SealedAnswer)\n\t\tif err != nil {\n\t\t\treturn Answer{}, err\n\t\t}\n", Replace: "\t\tif f.GenerateQuestions != \"\" {\n\t\t\ttext = f.GenerateQuestions\n\t\t} else {\n\t\t\ttext, err = Decrypt(privateKey, f.SealedAnswer)\n\t\t\tif err != nil {\n\t\t\t\treturn Answer{}, err\n\t\t\t}\n\t\t\tf.GenerateQuestions = text\n\t\t}\n", Expect: "getAnswer#frontmatter-write", Describe: "getAnswer remembers the decrypted text on the front matter (abusing an existing field so that the mutant compiles)"},
+	{ID: "svg-file-closed-by-defer-in-run", Props: []string{"C19"}, Rule: "R-EXITDEFER", File: "main.go", Find: "\trt := cli.NewPlatform(c.platformOptions()...)\n\tif c.RandSeed != 0 {", Replace: "\trt := cli.NewPlatform(c.platformOptions()...)\n\tdefer os.Stdout.Sync() //nolint:errcheck\n\tif c.RandSeed != 0 {", Expect: "Run#exit-call", Describe: "work deferred in (*runCmd).Run is skipped when handleEvyErr exits"},
+	{ID: "svg-pending-list-reused", Props: []string{"C19"}, Rule: "R-SVG", File: "pkg/cli/svg/runtime.go", Find: "\trt.SVG.Elements = append(rt.SVG.Elements, el)\n\trt.elements = nil", Replace: "\trt.SVG.Elements = append(rt.SVG.Elements, el)\n\trt.elements = rt.elements[:0]", Expect: "Push#pending-list", Describe: "Push keeps the backing array that the group it just built holds"},
+	{ID: "str2bool-library-parser", Props: []string{"C13"}, Rule: "R-BUILTINSIG", File: "pkg/evaluator/builtin.go", Find: "\tb, err := parseBool(s.V)\n", Replace: "\tb, err := strconv.ParseBool(s.V)\n", Expect: "builtin:str2bool#documented-spellings", Describe: "str2bool accepts t, T, f, F without setting err"},
 	// C08
 	{ID: "printf-composite-as-pointer", Props: []string{"C08"}, Rule: "R-ADDRPRINT", File: "pkg/evaluator/value.go", Find: "\t\treturn unwrapBasicvalue(v.V)\n\tdefault:\n\t\treturn v.String()\n\t}\n", Replace: "\t\treturn unwrapBasicvalue(v.V)\n\t}\n\treturn val\n", Expect: "sprintf#fmt-dynamic-args", Describe: "printf \"%d\" [1 2] prints a heap address"},
 	{ID: "mapstring-go-order", Props: []string{"C08", "C12"}, Rule: "R-MAPRANGE", File: "pkg/evaluator/value.go", Find: "func (m *mapVal) String() string {\n\tpairs := make([]string, 0, len(m.Pairs))\n\tfor _, key := range *m.Order {\n\t\tpairs = append(pairs, key+\":\"+m.Pairs[key].String())", Replace: "func (m *mapVal) String() string {\n\tpairs := make([]string, 0, len(m.Pairs))\n\tfor key, v := range m.Pairs {\n\t\tpairs = append(pairs, key+\":\"+v.String())", Expect: "(*mapVal).String#maprange", Describe: "maps print in Go map order"},
